@@ -54,6 +54,8 @@ func main() {
 	case "worker":
 		dl, _ := strconv.ParseInt(opt["deadline"], 10, 64)
 		harness.WorkerMain(pos[0], opt["tier"], seed, dl)
+	case "unit": // debugging aid: vcheck unit <ID> <unit name substring>
+		harness.DebugUnit(pos[0], pos[1], opt["tier"], seed)
 	case "replay":
 		os.Exit(harness.ReplayMain(pos[0]))
 	default:
